@@ -23,9 +23,12 @@ def run(run):
     run.gen_replay('Gen_Model', 'Gen_Model.cfg', A, {'langs': langs, 'namemaps': maps_small},
                    env={'VERIF_LANG': 'LTiny', 'VERIF_DEPTH': 3, 'VERIF_MAXREJ': 0}, timeout=1500,
                    name='every accepted ModelSM behaviour of depth 3 on LTiny, 2 name maps')
-    n = 700 if quick else 12000
+    n = 500 if quick else 12000
+    if quick:      # a seeded third of the name maps per run (always with the plain one)
+        k = run.seed % 3
+        maps_all = ['plain'] + [m for i, m in enumerate(maps_all[1:]) if i % 3 == k]
     for lang in ('LTiny', 'LDup', 'LDef'):
         run.gen_replay('Gen_Model', 'Gen_Model_sim.cfg', A, {'langs': langs, 'namemaps': maps_all},
                        env={'VERIF_LANG': lang, 'VERIF_DEPTH': 10, 'VERIF_MAXREJ': 0}, simulate=10 ** 9, depth=11,
                        max_cases=n, workers=8, timeout=400 if quick else 2400,
-                       name='random behaviours of depth 10 on %s, 12 name maps' % lang)
+                       name='random behaviours of depth 10 on %s, %d name maps' % (lang, len(maps_all)))
